@@ -126,12 +126,58 @@ def hostile_tables(rnd):
     yield ['x', ('t',)]
 
 
+def magic_values():
+    """Constants of the tree under test (live dictionary) in hostile roles:
+    as they are, scaled past every width, as floats / decimals / strings /
+    bytes / timestamps."""
+    from . import magic
+    mp = magic.pool()
+    out = list(mp.ints) + list(mp.strs)
+    out += [f for f in mp.floats if f != int(f) or abs(f) >= 2.0 ** 60]
+    raw = [b for b in mp.bytes if b.decode('utf-8', 'replace') not in
+           mp.strs or len(b) <= 2]
+    out += [bytearray(b) for b in raw] + raw
+    for c in mp.base_ints:
+        for k in (16, 64):
+            out.append(c + (1 << k))
+            out.append(c - (1 << k))
+        out.append(float(c))
+        out.append(D(c))
+        out.append(D(c).scaleb(-2))
+        out.append(str(c))
+        if 0 <= c < 2**40:
+            try:
+                out.append(datetime.datetime(1970, 1, 1, tzinfo=UTC)
+                           + datetime.timedelta(seconds=c))
+            except OverflowError:
+                pass
+    return out
+
+
+_MPOOL = None
+
+
+def magic_pool():
+    global _MPOOL
+    if _MPOOL is None:
+        _MPOOL = magic_values()
+    return _MPOOL
+
+
 def pool():
     return INTS + FLOATS + DECIMALS + DATETIMES + STRINGS + BYTESLIKE + WRONG
 
 
+def pool_plus(rnd, k):
+    """The fixed hostile pool plus k draws from the live dictionary."""
+    mp = magic_pool()
+    return pool() + rnd.sample(mp, min(k, len(mp)))
+
+
 def random_hostile(rnd):
     k = rnd.random()
+    if k < 0.05:
+        return rnd.choice(magic_pool())
     if k < 0.3:
         bits = rnd.choice([7, 8, 15, 16, 31, 32, 63, 64, rnd.randint(0, 80)])
         return rnd.choice((1, -1)) * ((1 << bits) + rnd.randint(-3, 3))
